@@ -270,7 +270,7 @@ def fixed_archives():
         ((2, b"MFUS", b""), [("obj", 1, b"VNode", [("op", 1), ("obj", 2, b"VNodf", []), ("s", b"")]), ("obj", 3, b"VNode", [])]),
         # the same object records read with ReadObject<T>() and with the polymorphic ReadObject()
         ((1, b"MFUS", b"x"), [("objp", 1, L, [("p", "u8", 0)]), ("objt", 2, L, [("p", "u8", 0)]), ("sp", 1),
-                              ("objp", 3, b"VNode", [("op", 1), ("objp", 4, b"VNodf", [("p", "u16", 9)]), ("s", b"ab")]),
+                              ("objt", 3, b"VNode", [("op", 1), ("objp", 4, L, [("p", "u8", 0)]), ("s", b"ab")]),
                               ("objt", 5, b"VNodf", [("sp", 5)])]),
         ((1, b"MFUS", b"x"), []),
     ]
@@ -301,7 +301,8 @@ def check(ctx):
                 break
             big = rng.random() < 0.15
             nit = rng.choice([30, 80, 200]) if big else rng.choice([1, 3, 6, 10, 16])
-            items = archgen.gen_case(rng, nit, nobj=rng.randint(0, 30 if big else 6), maxstr=40, dangling=0.03)
+            items = archgen.gen_case(rng, nit, nobj=rng.randint(0, 30 if big else 6), maxstr=40, dangling=0.03,
+                                     poly_scripted=False)
             info = archgen.gen_info(rng)
         r.probe_archive(info, items, rng, exhaustive_positions=(30 if quick else 120) if big else 400,
                         ndamage=20 if quick else 40, nmulti=20 if quick else 60)
